@@ -39,7 +39,8 @@ type CPlan struct {
 	Tape      []uint16 `json:"tape"`
 	Strategy  int      `json:"strategy"`
 	StickyMod int      `json:"sticky_mod"`
-	Ticker    bool     `json:"ticker"` // one extra task calls Maintain every 500 ms (as cmd/auparse does)
+	Inner     bool     `json:"inner_yields"` // also pre-empt inside the list's critical sections
+	Ticker    bool     `json:"ticker"`       // one extra task calls Maintain every 500 ms (as cmd/auparse does)
 	Ticks     int      `json:"ticks"`
 }
 
@@ -164,6 +165,7 @@ func GenCPlan(r *core.Rng) *CPlan {
 	}
 	p.Strategy = r.Intn(2)
 	p.StickyMod = core.Pick(r, 2, 3, 5, 8)
+	p.Inner = r.Chance(1, 3)
 	n := r.Range(0, 80)
 	for i := 0; i < n; i++ {
 		p.Tape = append(p.Tape, uint16(r.Intn(1<<16)))
@@ -330,9 +332,11 @@ func ExecCPlan(p *CPlan, trace bool) *core.Result {
 			}
 		})
 	}
+	setInnerYields(p.Inner)
 	setActiveSched(sc)
 	verdict := sc.Run()
 	setActiveSched(nil)
+	setInnerYields(false)
 	res.Verdict = verdict
 	res.SchedHash = sc.SchedHash
 	res.Steps = sc.Steps
